@@ -93,13 +93,16 @@ func NamedSubtype(n string, v interface{}, st string) Arg {
 		return Named(n, v)
 	}
 
+	// Lowercase once, outside the closure: the returned Arg may be applied
+	// by several goroutines at the same time.
+	n = strings.ToLower(n)
+
 	return func(a *argBuilder) error {
 		rv := reflect.ValueOf(v)
 		if !rv.IsValid() {
 			return nil
 		}
 
-		n = strings.ToLower(n)
 		if a.namedSub[n] == nil {
 			a.namedSub[n] = map[string]reflect.Value{}
 		}
